@@ -178,7 +178,7 @@ func c07TreeGen(tier Tier) TreeGen {
 		MaxDepth: 4, MaxWidth: 4, Budget: 30,
 		Kinds: stackKinds,
 		Leaf:  func(t *rapid.T) Val { return genPrimVal(t, true, false) },
-		Conds: true, CondExprStack: true, NotAsCondExpr: true,
+		Conds: true, CondExprStack: true, CondExprCond: true, NotAsCondExpr: true,
 		IndexOpts: true, Wraps: true, NilLeaves: true, EmptyStacks: true,
 	}
 	if tier.Thorough {
